@@ -14,8 +14,6 @@ ASSUMPTIONS = ["window sizes are bounded (len <= 6 quick, <= 8 thorough); the lo
 
 
 def run(F, rep):
-    # crate helpers generic over the k-mer type: identified with a trait operation per type (and used as such by the tables below)
-    rep.run(lemmas.kmer_helper_lemmas, F, rep, "C07.8")
     rep.engines.update(["E2-DT", "affine", "E1"])
     rep.run(dt_msp.minpos_order_tables, F, rep, "C07.1")
     rep.run(dt_msp.scan_tables, F, rep, "C07.2")
